@@ -38,9 +38,12 @@ Root == [abs |-> TRUE, comps |-> <<>>]
 (* C20: one `restic restore` into a target directory that may already contain entries.     *)
 (*   r.sel     [mode, pats, ipats]                                                         *)
 (*   r.delete  --delete given                                                              *)
-(*   r.snap    entries of the snapshot   [p (path), t ("file" | "dir" | "symlink")]        *)
+(*   r.snap    entries of the snapshot   [p (path), t ("file" | "dir" | "symlink" | "fifo" | *)
+(*             "dev" | "chardev" | "socket")]; restore cannot create sockets, but they are *)
+(*             part of the snapshot                                                        *)
 (*   r.pre     entries of the target before the restore [p, t]; their content differs from *)
-(*             the snapshot's; same path => same type                                      *)
+(*             the snapshot's; same path => same type, except at the paths of snapshot     *)
+(*             entries that are neither file, directory nor symlink                        *)
 (*   r.after   entries of the target afterwards [p, t, c]: c = "snap" content (or link     *)
 (*             target) equals the snapshot's entry, "pre" equals the pre-existing one,     *)
 (*             "dir" for directories, "other" anything else                                *)
@@ -59,7 +62,10 @@ RestoreOK(r) ==
       RP     == {s.p : s \in R}
       Needed == {s.p : s \in {s \in S : s.t = "dir" /\ \E x \in RP : IsAncestor(s.p, x)}}
       \* a snapshot directory (or the root) in which restore does its work
-      Worked(d) == IF d = Root THEN RP # {} ELSE d \in RP \/ \E x \in RP : IsAncestor(d, x)
+      SnapDir(d) == \E s \in S : s.p = d /\ s.t = "dir"
+      Worked(d) == IF d = Root THEN RP # {}
+                   ELSE SnapDir(d) /\ (d \in RP \/ \E x \in RP : IsAncestor(d, x))
+      SockP  == {s.p : s \in {s \in R : s.t = "socket"}}    \* selected, but restore cannot create them
       \* for a pre-existing entry that is not part of the snapshot: the chain from its top-most
       \* ancestor that is not part of the snapshot down to the entry itself
       Chain(p) == {Prefix(p, n) : n \in {n \in 1..Len(p.comps) : Prefix(p, n) \notin SP}}
@@ -71,14 +77,16 @@ RestoreOK(r) ==
   IN
   /\ ~r.err
   \* exactly the selected entries are written, with the snapshot's type and content
-  /\ \A s \in R : \E a \in A : a.p = s.p /\ a.t = s.t /\ (s.t = "dir" \/ a.c = "snap")
+  /\ \A s \in R : s.t = "socket" \/ \E a \in A : a.p = s.p /\ a.t = s.t /\ (s.t = "dir" \/ a.c = "snap")
   \* nothing else appears or changes: every other entry of the target is a directory needed to
   \* hold a restored entry, or an untouched pre-existing entry
   /\ \A a \in A :
-        \/ a.p \in RP
+        \/ a.p \in RP \ SockP
+        \/ a.p \in SockP /\ a.t = "socket"
         \/ a.t = "dir" /\ a.p \in Needed
         \/ \E e \in ToSet(r.pre) : e.p = a.p /\ e.t = a.t /\ (a.t = "dir" \/ a.c = "pre")
   \* pre-existing entries disappear only with --delete, only when selected and not part of the snapshot
+  \* (an entry that is part of the snapshot, whatever its type, is never removed)
   /\ \A p \in PreP \ AP : p \notin SP /\ MayRemove(p)
   \* ... and then they do disappear (in every directory restore works in)
   /\ \A p \in (PreP \ SP) \cap AP : ~MustRemove(p)
